@@ -35,10 +35,11 @@ type node struct {
 	name string
 	lic  int
 	mid  uint16
+	solo bool // a broker configured without a cluster section
 }
 
 func (n *node) start() error {
-	b, err := bk.New(bk.Opts{Dir: n.dir, KeepDir: true, NodeName: n.name, LicenseVer: n.lic, Storage: "noop"})
+	b, err := bk.New(bk.Opts{Dir: n.dir, KeepDir: true, NodeName: n.name, LicenseVer: n.lic, Storage: "noop", NoCluster: n.solo})
 	if err != nil {
 		return err
 	}
@@ -62,6 +63,92 @@ func (n *node) request(topic string, body any) ([]bk.Pkt, error) {
 }
 
 var replayMu sync.Mutex // brokers of one replay share ports / directories; keep replays sequential per process slot
+
+// ReplaySolo executes the b1 part of a behaviour on ONE broker configured without a cluster section: bans live in the
+// cluster state, which such a broker does not have.  A ban request there may be refused (not acknowledged: the model
+// does nothing) - but if it is acknowledged it must be in force like anywhere else.
+func ReplaySolo(walk []json.RawMessage, label string, lic int) (*core.Trace, error) {
+	root, err := os.MkdirTemp("", "vbansolo-")
+	if err != nil {
+		return nil, err
+	}
+	defer os.RemoveAll(root)
+	n := &node{dir: root + "/b1", name: "00:00:00:00:0b:09", lic: lic, solo: true}
+	if err := n.start(); err != nil {
+		return nil, fmt.Errorf("start: %v", err)
+	}
+	defer func() {
+		if n.b != nil {
+			n.b.Close()
+		}
+	}()
+	keys := map[string]string{}
+	for _, k := range []string{"kA", "kB"} {
+		s, err := n.b.Key("#/", "rw", time.Unix(0, 0))
+		if err != nil {
+			return nil, err
+		}
+		keys[k] = s
+	}
+	master := n.b.MasterKey()
+	state := func() map[string]map[string]bool {
+		out := map[string]map[string]bool{"b1": {}, "b2": {}}
+		for k, ks := range keys {
+			_, _, ok := n.b.Svc.Authorize(security.ParseChannel([]byte(ks+"/use/"+k+"/")), security.AllowRead)
+			out["b1"][k], out["b2"][k] = ok, true // (b2 does not exist: never banned anywhere)
+		}
+		return out
+	}
+	tr := &core.Trace{Label: label}
+	tr.Events = append(tr.Events, core.Ev(map[string]any{"e": "reset", "license": lic, "solo": true}))
+	for _, raw := range walk {
+		var a action
+		if err := json.Unmarshal(raw, &a); err != nil {
+			return nil, err
+		}
+		if a.B != "b1" {
+			continue
+		}
+		switch a.N {
+		case "ban", "unban":
+			pk, err := n.request("emitter/keyban/", map[string]any{"secret": master, "target": keys[a.K], "banned": a.N == "ban"})
+			status := 0
+			for _, p := range pk {
+				if p.T == "resp" && p.Api == "keyban" {
+					status = p.Code
+				}
+			}
+			if err != nil || status != 200 {
+				// not acknowledged (the connection may have been closed): a new connection for what follows
+				if err != nil {
+					n.cl = n.b.Attach()
+					n.cl.Send(&mqtt.Connect{ClientID: []byte("c-again")})
+					if _, err := n.cl.Barrier(8 * time.Second); err != nil {
+						return nil, fmt.Errorf("reconnect: %v", err)
+					}
+				}
+				tr.Events = append(tr.Events, core.Ev(map[string]any{"e": "ban-refused", "b": "b1", "k": a.K, "state": state()}))
+				continue
+			}
+			tr.Events = append(tr.Events, core.Ev(map[string]any{"e": a.N, "b": "b1", "k": a.K, "status": status, "state": state()}))
+		case "use":
+			ok := true
+			n.mid++
+			n.cl.Send(&mqtt.Publish{Header: mqtt.Header{QOS: 1}, MessageID: n.mid, Topic: []byte(keys[a.K] + "/use/" + a.K + "/"), Payload: []byte("x")})
+			pk, err := n.cl.Barrier(8 * time.Second)
+			if err != nil {
+				return nil, fmt.Errorf("use: %v", err)
+			}
+			for _, m := range pk {
+				if p := bk.Abstract(m); p.T == "err" {
+					ok = false
+				}
+			}
+			tr.Events = append(tr.Events, core.Ev(map[string]any{"e": "use", "b": "b1", "k": a.K, "op": "pub", "ok": ok, "state": state()}))
+		}
+	}
+	return tr, nil
+}
 
 // Replay executes one behaviour on two real brokers.
 func Replay(walk []json.RawMessage, label string, lic int) (*core.Trace, error) {
@@ -235,7 +322,13 @@ func Run(c *core.Ctx) {
 		go func(i int, w []json.RawMessage) {
 			defer wg.Done()
 			defer func() { <-sem }()
-			t, err := Replay(w, fmt.Sprintf("ban-beh-%d", i), 1+(i+int(c.Seed))%3)
+			var t *core.Trace
+			var err error
+			if i%6 == 5 {
+				t, err = ReplaySolo(w, fmt.Sprintf("ban-beh-%d-solo", i), 1+(i+int(c.Seed))%3)
+			} else {
+				t, err = Replay(w, fmt.Sprintf("ban-beh-%d", i), 1+(i+int(c.Seed))%3)
+			}
 			mu.Lock()
 			defer mu.Unlock()
 			if err != nil {
